@@ -1,11 +1,14 @@
 package main
 
 import (
+	"fmt"
 	"math/big"
+	"os"
 
 	"github.com/tuneinsight/lattigo/v6/schemes/bgv"
 
 	"verif/ref"
+	"verif/uni"
 )
 
 // Noise budget guard.
@@ -24,7 +27,7 @@ import (
 //	a * scalar                         Ba * (t/2+1)              (scalar centred mod t)
 //	a * b (tensor, w_out = w_a * w_b)  N*Ba*Bb                   (negacyclic product of N terms; plaintext: Bb = t)
 //	relinearization                    + t*E_relin(level)
-//	rescale by q                       B/q + 1 + t*(1+N+N^2)/2   (rounding each component by at most q/2)
+//	rescale by q                       B/q + 1 + t*(1+N+N^2)     (each component is rounded by at most q/2; doubled)
 //	scale-invariant tensor             see siBound
 //
 // A leaf whose bound reaches Q_l/4 after an instruction is outside the property ("whose noise stays within the
@@ -132,4 +135,27 @@ func (w *world) siBound(a, b *big.Int, level int) *big.Int {
 func (w *world) inBudget(b *big.Int, level int) bool {
 	lim := new(big.Int).Rsh(w.Q[level], 2)
 	return b.Cmp(lim) < 0
+}
+
+// verifyNoise (env VERIF_C05_NOISE=1, development aid): additionally measure the true |w| with the independent
+// phase oracle and check it against the model's bound. A failure is a defect of this harness' bound formulas
+// (or an implementation that adds much more noise than any analysis allows), never a C05 verdict.
+var verifyNoise = os.Getenv("VERIF_C05_NOISE") != ""
+
+func (w *world) checkBound(r *reg) string {
+	ph := uni.Phase(w.params.Parameters, r.ct.El(), w.sk)
+	Q := w.Q[r.ct.Level()]
+	t := w.tBig()
+	max := new(big.Int)
+	for _, x := range ph {
+		v := ref.Center(new(big.Int).Mul(x, t), Q)
+		v.Abs(v)
+		if v.Cmp(max) > 0 {
+			max = v
+		}
+	}
+	if max.Cmp(r.bound) > 0 {
+		return fmt.Sprintf("measured |t*phase| = 2^%d exceeds the model bound 2^%d (level %d, log Q = %d)", max.BitLen(), r.bound.BitLen(), r.level, Q.BitLen())
+	}
+	return ""
 }
